@@ -139,17 +139,17 @@ static uint64_t run_one(Prop *prop, const J &plan, Acc *acc, bool count) {
 }
 
 int main(int argc, char **argv) {
-	// deterministic address space: re-exec once with ASLR off
-	if (!getenv("SIM_NO_ASLR_DONE")) {
+	// deterministic address space and allocator configuration: re-exec once with ASLR off and G_SLICE=always-malloc
+	// (glib reads G_SLICE in a constructor, before main)
+	if (!getenv("SIM_REEXEC_DONE")) {
 		int pers = personality(0xffffffff);
-		if (pers != -1 && !(pers & ADDR_NO_RANDOMIZE)) {
-			if (personality((unsigned long) pers | ADDR_NO_RANDOMIZE) != -1) {
-				setenv("SIM_NO_ASLR_DONE", "1", 1);
-				execv("/proc/self/exe", argv);
-			}
-		}
+		if (pers != -1 && !(pers & ADDR_NO_RANDOMIZE)) personality((unsigned long) pers | ADDR_NO_RANDOMIZE);
+		setenv("SIM_REEXEC_DONE", "1", 1);
+		setenv("G_SLICE", "always-malloc", 1);
+		setenv("G_DEBUG", "", 1);
+		setenv("MALLOC_PERTURB_", "0", 1);
+		execv("/proc/self/exe", argv);
 	}
-	setenv("G_SLICE", "always-malloc", 1);
 	std::string prop_id, tier = "quick", replay, dump_file, outdir = ".";
 	uint64_t seed0 = 1, count = 1, stride = 1, offset = 0, dump_seed = 0, twice_every = 0;
 	double deadline = 0;
